@@ -157,6 +157,14 @@ func (ex *Exec) writeReplay(P string, a *obAgg, repo string) string {
 			break
 		}
 	}
+	if f.Status != "sat" {
+		for _, x := range a.Failed {
+			if x.Hunted {
+				f = x
+				break
+			}
+		}
+	}
 	rf := ReplayFile{Property: P, Obligation: a.Name, Kind: a.Kind, Clause: a.Text, At: a.Pos, Verdict: f.Status, Solver: f.Solver, Path: f.Trace}
 	base := filepath.Join(dir, smtSym(a.Name))
 	if f.Script != "" {
@@ -164,8 +172,11 @@ func (ex *Exec) writeReplay(P string, a *obAgg, repo string) string {
 		rf.Script = base + ".smt2"
 	}
 	reproduced := false
-	if f.Status == "sat" {
+	if f.Status == "sat" || f.Hunted {
 		rf.ModelRaw = clip(f.Model, 6000)
+		if f.Hunted {
+			rf.Verdict = f.Status + " (candidate model from the quantifier-free weakening of the query)"
+		}
 		model := parseModel(f.Model)
 		rf.Model = map[string]string{}
 		for k, v := range model {
@@ -191,6 +202,15 @@ func (ex *Exec) writeReplay(P string, a *obAgg, repo string) string {
 		}
 	} else {
 		rf.ModelRaw = "no model: solvers answered " + f.Solver
+	}
+	if !reproduced {
+		if sc := scenarioFor(a.Name); sc != "" {
+			out, ok := runOverlayTest(repo, sc)
+			rf.ReplayOut = clip(out, 4000)
+			rf.ReplayTest = sc
+			rf.Replayed = ok
+			reproduced = ok
+		}
 	}
 	data, _ := json.MarshalIndent(rf, "", " ")
 	path := base + ".json"
@@ -238,4 +258,22 @@ func cmdReplay(args []string) int {
 	}
 	fmt.Println("no executable replay for this obligation (no-failing-input-found)")
 	return 0
+}
+
+// scenarioFor: a hand-written history under replay/scenarios attached to an obligation by name
+// (used when the failing state is reachable only by interference, so no solver model helps).
+func scenarioFor(obligation string) string {
+	files, _ := filepath.Glob(filepath.Join(verifDir, "replay", "scenarios", "*.go.tmpl"))
+	for _, f := range files {
+		data, err := os.ReadFile(f)
+		if err != nil {
+			continue
+		}
+		for _, l := range strings.SplitN(string(data), "\n", 6) {
+			if strings.HasPrefix(l, "// obligation:") && strings.TrimSpace(strings.TrimPrefix(l, "// obligation:")) == obligation {
+				return f
+			}
+		}
+	}
+	return ""
 }
